@@ -3,6 +3,7 @@ clauses (DESIGN §4 C09)."""
 import re
 
 from order import M, names
+from program import op_place
 from common import AnchorMissing
 
 EXPLANATION = (
@@ -194,6 +195,25 @@ def run(ctx, chk):
                            "writer may have rewritten them")
     if n7 < 3:
         raise AnchorMissing("expected >= 3 page-located reads in vecdb read paths, found %d" % n7)
+    # B09.8 "no read blocks forever": lock-order findings of engine A that are not already recorded under C11
+    import json as _json
+    import os as _os
+    import locks as _locks
+    from common import load_known
+    ex = {k: v for k, v in _json.load(open(_os.path.join(_locks.RULES, "lock_exempt.json"))).items() if not k.startswith("_")}
+    groups, _info = L.verdict(ex)
+    known11 = load_known("C11")
+    fresh = [g for g in groups if g["key"] not in known11]
+    chk.oblige("B09.8 no lock-order cycle / recursive read beyond the constructs recorded under C11 [%d constructs, %d "
+               "recorded]" % (len(groups), len(groups) - len(fresh)), not fresh,
+               detail={"new_constructs": [{"key": g["key"], "pairs": g["pairs"]} for g in fresh]},
+               key="B09.8|" + (fresh[0]["key"] if fresh else "-"),
+               msg="a reader (or the writer it races with) can block forever: " + (
+                   "%s while holding %s" % (fresh[0]["pairs"][0].split("->")[1], fresh[0]["pairs"][0].split("->")[0])
+                   if fresh else ""))
+    # B09.9 = E6: pointer reads of mapped bytes only while a Reader pins the mapping
+    from props.c20 import live_reader_at_reads
+    live_reader_at_reads(ctx, chk, "B09.9")
     # B09.6 relocation publishes the new placement only after the bytes are there (rawdb side of every append)
     from props.c10 import data_before_placement
     data_before_placement(ctx, chk, "B09.6")
@@ -211,7 +231,8 @@ def run(ctx, chk):
         chk.oblige("B09.5 held_at(compressed write: in-place overwrite from a published page's start, PAGES:W)",
                    ("PAGES", "W") in held, detail={"site": t.get("span"), "held": sorted(held),
                                                    "offset_sources": sorted(sl_["calls"])[:12]},
-                   key="B09.5|held_at|overwrite-published-page|PAGES:W",
+                   key="B09.5|held_at|overwrite-published-page|PAGES:W|data=%s" % (
+                       cw.name_of.get((op_place(t["args"][2]) and O.root_local(cw, t["args"][2])) or -1, "?")),
                    msg="bytes described by a published page entry are overwritten while readers holding the pages "
                        "read lock may be decoding them")
     chk.sample({"rule": "B09.4i", "read_only_bodies_creating_readers": n_paths})
